@@ -120,6 +120,9 @@ PROP_BOUNDED = {
     'C05': 'harness/c05_bounded.py',
     'C06': 'harness/c06_bounded.py',
     'C08': 'harness/c08_bounded.py',
+    'C10': 'harness/bp_scenarios.py --prop C10',
+    'C11': 'harness/bp_scenarios.py --prop C11',
+    'C19': 'harness/bp_scenarios.py --prop C19',
     'C13': 'harness/c13_bounded.py',
     'C20': 'harness/c20_bounded.py',
 }
@@ -137,8 +140,9 @@ def run_bounded(prop, tier, src=None):
         env['PYVC_REPO_SRC'] = src
     t0 = time.time()
     try:
-        p = subprocess.run([py, os.path.join(ROOT, script), '--tier', tier], cwd=ROOT, capture_output=True, text=True,
-                           timeout=3000, env=env)
+        parts = script.split()
+        p = subprocess.run([py, os.path.join(ROOT, parts[0])] + parts[1:] + ['--tier', tier], cwd=ROOT, capture_output=True,
+                           text=True, timeout=3000, env=env)
     except subprocess.TimeoutExpired:
         return None, [], ['bounded stand-in %s timed out' % script]
     try:
@@ -404,7 +408,8 @@ def main(argv=None):
         with open(os.path.join(ROOT, 'evidence', '%s.json' % prop), 'w') as f:
             json.dump(ev, f, indent=1, default=str)
     print('%s: %d obligations, %d discharged, %d known findings, %d violations, %d undecided, %d checker problems (%.0fs)'
-          % (prop, n_ob, n_dis, len(known_seen), len(vio_lines), len(undecided), len(problems), wall))
+          % (prop, n_ob, n_dis, len(known_seen) + len((bounded or {}).get('known_findings_seen', [])), len(vio_lines),
+             len(undecided), len(problems), wall))
     for u in undecided[:20]:
         print('  undecided:', u)
     for p in problems[:20]:
